@@ -146,10 +146,11 @@ def scenario(idx, kind, shape, pos, cat, ret="val"):
 
 
 def program(name, scenarios):
-    o = [gen.PRELUDE, COMMON]
+    o = [gen.PRELUDE, gen.PRELUDE_DEATH, COMMON]
     for idx, sc in scenarios:
         o.append(scenario(idx, *sc))
     o.append("int main() {")
+    o.append(gen.MAIN_DEATH)
     o.append('    std::printf("{\\"e\\":\\"reset\\",\\"script\\":\\"%s\\",\\"bindings\\":[\\"gen\\"]}\\n");' % name)
     o.append("    yorel::yomm2::update();")
     for idx, _ in scenarios:
